@@ -150,7 +150,34 @@ pub fn check_case(c: &L2Case, prop: &str, rep: &mut Report) -> bool {
         }
     }
     let (o, consumed) = match c.api.as_str() {
-        "lzma2" => api::lzma2_bytes(&data),
+        "lzma2" => {
+            let first = api::lzma2_bytes(&data);
+            // C17: malformed framing is never accepted - through whatever BufRead the caller has (a header that is
+            // not contiguous in the reader's buffer is still the same header)
+            if prop == "C17" && e.v == Exp::Err && e.class != "dist" && first.0.verdict == Verdict::Err && data.len() < 3000 {
+                let mut kinds: Vec<(Vec<usize>, usize)> = vec![(vec![1], 0), (vec![3, 1, 2], 0), (vec![2], 0)];
+                for cap in 1..=6usize {
+                    kinds.push((vec![], cap));
+                }
+                for (frags, cap) in kinds {
+                    let mut src = crate::d_reader::LogSrc::new(&data, frags.clone(), false);
+                    let mut out = vec![];
+                    let accepted = if cap == 0 {
+                        matches!(crate::io::catch(|| lzma_rs::lzma2_decompress(&mut src, &mut out).is_ok()), crate::io::Caught::Done(true))
+                    } else {
+                        let mut br = std::io::BufReader::with_capacity(cap, &mut src);
+                        matches!(crate::io::catch(|| lzma_rs::lzma2_decompress(&mut br, &mut out).is_ok()), crate::io::Caught::Done(true))
+                    };
+                    if accepted {
+                        let mut cj = serde_json::to_value(c).unwrap();
+                        cj["kind"] = json!("lzma2");
+                        rep.violation(prop, format!("malformed stream ({}) accepted when read through {} although the whole-buffer decode rejects it", e.class, if cap == 0 { format!("a source exposing fragments {:?}", frags) } else { format!("a BufReader of capacity {}", cap) }), cj);
+                        return false;
+                    }
+                }
+            }
+            first
+        }
         "raw" => {
             // the raw decoder object is reusable: the verdict must not depend on what the same object
             // saw before (same stream again, with and without reset)
@@ -610,6 +637,10 @@ pub fn extremes(prop: &str, seed: u64, rep: &mut Report) {
         ("packed=65536", vec![Chunk::Lzma { class: 3, props: Some(p), prog: prog_with_packed(&mut rng, 65536) }, Chunk::Lzma { class: 0, props: None, prog: tail.clone() }]),
         ("packed=65535", vec![Chunk::Lzma { class: 3, props: Some(p), prog: prog_with_packed(&mut rng, 65535) }, Chunk::Lzma { class: 0, props: None, prog: tail.clone() }]),
         ("unpacked=2MiB", vec![Chunk::Lzma { class: 3, props: Some(p), prog: big_unpacked.clone() }, Chunk::Lzma { class: 0, props: None, prog: tail.clone() }]),
+        // a chunk of more than 1 MiB (bit 4 of the control byte set) in every reset class: 0x9x, 0xBx, 0xDx after a first chunk
+        ("unpacked>1MiB class0", vec![Chunk::Lzma { class: 3, props: Some(p), prog: vec![Sym::Lit { b: 0x5A }, Sym::Lit { b: 0x5B }] }, Chunk::Lzma { class: 0, props: None, prog: big_unpacked[1..].to_vec() }, Chunk::Lzma { class: 0, props: None, prog: tail.clone() }]),
+        ("unpacked>1MiB class1", vec![Chunk::Lzma { class: 3, props: Some(p), prog: vec![Sym::Lit { b: 0x5A }, Sym::Match { d: 1, n: 7 }] }, Chunk::Lzma { class: 1, props: None, prog: { let mut v = vec![Sym::Lit { b: 0x41 }]; v.extend(big_unpacked[1..4000].iter().cloned()); v } }, Chunk::Lzma { class: 0, props: None, prog: tail.clone() }]),
+        ("unpacked>1MiB class2", vec![Chunk::Lzma { class: 3, props: Some(p), prog: vec![Sym::Lit { b: 0x5A }, Sym::Match { d: 1, n: 7 }] }, Chunk::Lzma { class: 2, props: Some(Props { lc: 0, lp: 2, pb: 1 }), prog: { let mut v = vec![Sym::Lit { b: 0x41 }]; v.extend(big_unpacked[1..4200].iter().cloned()); v } }, Chunk::Lzma { class: 0, props: None, prog: tail.clone() }]),
         ("unpacked=1,packed=min", vec![Chunk::Lzma { class: 3, props: Some(p), prog: vec![Sym::Lit { b: 9 }] }, Chunk::Lzma { class: 1, props: None, prog: vec![Sym::Lit { b: 8 }] }, Chunk::Raw { reset: false, data: vec![7] }]),
         ("raw=65536 then lzma", vec![Chunk::Raw { reset: true, data: (0..65536usize).map(|i| (i % 253) as u8).collect() }, Chunk::Lzma { class: 2, props: Some(p), prog: vec![Sym::Match { d: 65536, n: 273 }, Sym::Rep { r: 0, n: 100 }] }]),
     ];
